@@ -1,7 +1,8 @@
 (* C10: what the driver evaluates on every observed case *)
 From Coq Require Import List Bool ZArith Lia.
 Require Export LE Varint C10_Model.
-Require Import C10_Proofs.
+Require Export C10_Monitor.
+Require Import C10_Codec C10_Proofs C10_Stream.
 Import ListNotations.
 Open Scope Z_scope.
 
@@ -35,7 +36,7 @@ Definition case_accept (c : case) : bool :=
   | CReWrite b0 o out b1 =>
       is_rewrite o && (let '(o', b') := bstep b0 o in outcome_eqb o' out && zl_eqb b' b1)
   | CStream chunks eofl ops obs_r rest_r obs_b rest_b =>
-      forallb stream_op ops
+      forallb stream_op ops && forallb byte_okb (concat chunks)
       && (let '(o, s) := rrun (chunks, eofl) ops in outs_eqb o obs_r && zl_eqb (src_bytes s) rest_r)
       && (let '(o, f) := brun (concat chunks) ops in outs_eqb o obs_b && zl_eqb f rest_b)
   end.
@@ -54,17 +55,17 @@ Theorem case_sound : forall c, case_accept c = true -> case_holds c = true.
 Proof.
   intros [init ops obs final | ws obs | ws total cut obs | b0 o out b1 | chunks eofl ops obs_r rest_r obs_b rest_b];
     cbn [case_accept case_holds]; intros H.
-  - destruct (brun init ops) as [o f] eqn:E. apply andb_prop in H as [H1 _]. apply outs_eqb_eq in H1. subst obs.
+  - destruct (brun init ops) as [o f] eqn:E. apply andb_prop in H as [H1 _]. apply outs_eqb_eq in H1. rewrite <- H1.
     replace o with (fst (brun init ops)) by now rewrite E. apply hist_sound.
-  - apply andb_prop in H as [Hw H1]. apply outs_eqb_eq in H1. subst obs. apply round_sound, Hw.
-  - repeat (apply andb_prop in H as [H ?]).
-    match goal with H : outs_eqb _ _ = true |- _ => apply outs_eqb_eq in H; subst obs end.
-    apply trunc_sound; auto; try (apply Z.leb_le; assumption). now apply Z.eqb_eq.
+  - apply andb_prop in H as [Hw H1]. apply outs_eqb_eq in H1. rewrite <- H1. apply round_sound, Hw.
+  - apply andb_prop in H as [H H5]. apply andb_prop in H as [H H4]. apply andb_prop in H as [H H3].
+    apply andb_prop in H as [H1 H2]. apply outs_eqb_eq in H5. rewrite <- H5.
+    apply Z.eqb_eq in H2. apply Z.leb_le in H3, H4. now apply trunc_sound.
   - apply andb_prop in H as [Hr H]. destruct (bstep b0 o) as [o' b'] eqn:E.
-    apply andb_prop in H as [H1 H2]. apply outcome_eqb_eq in H1. apply zl_eqb_eq in H2. subst. now apply rewrite_sound.
-  - apply andb_prop in H as [H Hb]. apply andb_prop in H as [Hs Hr].
+    apply andb_prop in H as [H1 H2]. apply outcome_eqb_eq in H1. apply zl_eqb_eq in H2. rewrite <- H1, <- H2. now apply rewrite_sound.
+  - apply andb_prop in H as [H Hb]. apply andb_prop in H as [H Hr]. apply andb_prop in H as [Hs Hk].
     destruct (rrun (chunks, eofl) ops) as [o s] eqn:Er. destruct (brun (concat chunks) ops) as [o2 f] eqn:Eb.
     apply andb_prop in Hr as [Hr1 Hr2]. apply andb_prop in Hb as [Hb1 Hb2].
-    apply outs_eqb_eq in Hr1, Hb1. apply zl_eqb_eq in Hr2, Hb2. subst.
-    apply (stream_sound chunks eofl ops); auto.
+    apply outs_eqb_eq in Hr1, Hb1. apply zl_eqb_eq in Hr2, Hb2. rewrite <- Hr1, <- Hr2, <- Hb1, <- Hb2.
+    now apply (stream_sound chunks eofl ops o s o2 f).
 Qed.
